@@ -423,4 +423,17 @@ class NoImportsClause(object):
         names = '+'.join(self.DECLS[i]['name'] for i in case['decls']) or 'values-only'
         return check_set([mod], ['TEST-MIB'], 'C04|no-imports|%s' % names)
 
-FAMILIES = [Sequences(), CrossModule(), Identifiers(), TypeChains(), Texts(), AccessWords(), NoImportsClause()]
+def _option_histories():
+    from mc.checks import C12
+
+    class OptionHistories(C12.OptionHistories):
+        """One PySnmpCodeGen serving several compile() calls: the module written by a call is the one a fresh generator writes
+        for the same options - in particular the stock module after a call that used a template of the caller's."""
+        prefix = 'C04'
+
+        def blocks(self, tier):
+            return [b for b in C12.OptionHistories.blocks(self, tier) if b['backend'] == 'pysnmp']
+    return OptionHistories()
+
+
+FAMILIES = [Sequences(), CrossModule(), Identifiers(), TypeChains(), Texts(), AccessWords(), NoImportsClause(), _option_histories()]
